@@ -81,6 +81,13 @@ def sites(b):
     return acts, vals
 
 
+def splice(b, s, e, repl):
+    """b[:s] + repl + b[e:], keeping repl a token of its own (S-(...) is two adjacent tokens in the source)"""
+    pre = b' ' if s > 0 and b[s - 1:s] not in (b' ', b'\n', b'\t', b'(') else b''
+    post = b' ' if e < len(b) and b[e:e + 1] not in (b' ', b'\n', b'\t', b')') else b''
+    return b[:s] + pre + repl + post + b[e:]
+
+
 class Rewriter:
     def __init__(self, rng: random.Random):
         self.rng = rng
@@ -110,7 +117,7 @@ class Rewriter:
         a = self.rng.choice(cands)
         name = self.fresh('zal')
         x = b[a['s']:a['e']]
-        new = b[:a['s']] + b'@' + name.encode() + b[a['e']:]
+        new = splice(b, a['s'], a['e'], b'@' + name.encode())
         ins = a['item'][0]
         new = new[:ins] + b'(defalias ' + name.encode() + b' ' + x + b')\n' + new[ins:]
         return new.decode(), 'alias'
@@ -128,7 +135,7 @@ class Rewriter:
         x = b[v['s']:v['e']]
         if x[:1] == b'(' and re.match(rb'\(\s*concat\b', x):
             return None
-        new = b[:v['s']] + b'$' + name.encode() + b[v['e']:]
+        new = splice(b, v['s'], v['e'], b'$' + name.encode())
         d = b'(defvar ' + name.encode() + b' ' + x + b')\n'
         if self.rng.random() < 0.5:
             new = d + new
@@ -159,7 +166,7 @@ class Rewriter:
             body = body[:cs - off] + b'$' + p.encode() + body[ce - off:]
         sp = self.rng.choice([b'template-expand', b't!'])
         call = b'(' + sp + b' ' + name.encode() + b''.join(b' ' + v for v in vals) + b')'
-        new = b[:a['s']] + call + b[a['e']:]
+        new = splice(b, a['s'], a['e'], call)
         d = b'(deftemplate ' + name.encode() + b' (' + ' '.join(params).encode() + b') ' + body + b')\n'
         ins = a['item'][0]   # before the item that uses it: after every template the body may itself expand
         return (new[:ins] + d + new[ins:]).decode(), 'template-param%d' % len(params)
